@@ -3,7 +3,7 @@ Shape S: every sequence (up to a depth bound) of {local close (with/without
 code), local write, peer close frame (empty / code / code+reason / invalid
 UTF-8 reason / 1-byte payload), peer data, peer pong, peer EOF at a frame
 boundary or mid-frame, gated on_message completion, timer firing}, for both
-roles and with/without keep-alive pings, on the real protocol over a FakeSocket
+roles (plus a client that consumes with read_message() only at the end) and with/without keep-alive pings, on the real protocol over a FakeSocket
 with virtual time; oracle = a small reference of the closing handshake."""
 import asyncio
 import struct
@@ -17,7 +17,7 @@ EVENTS = ["local_close", "local_close_code", "local_write", "peer_close_empty", 
           "peer_close_reason", "peer_close_bad_utf8", "peer_close_1byte", "peer_data", "peer_pong", "peer_eof",
           "peer_half_frame_eof", "timer", "release", "tick"]
 PEER_CLOSES = {"peer_close_empty": b"", "peer_close_1000": struct.pack("!H", 1000),
-               "peer_close_reason": struct.pack("!H", 4000) + "réason".encode(),
+               "peer_close_reason": struct.pack("!H", 4000) + ("réason" + "x" * 116).encode(),    # 125 bytes: the largest legal close payload
                "peer_close_bad_utf8": struct.pack("!H", 4001) + b"\xff\xfe", "peer_close_1byte": b"\x03"}
 
 
@@ -36,7 +36,7 @@ def run(ch, role, pings, gated, depth, preamble=()):
                 s.rec["on_message"] = hook
         else:
             kw = {"ping_interval": 10, "ping_timeout": 4} if pings else {}
-            s = wsh.ClientSession(w, connect_kwargs=kw)
+            s = wsh.ClientSession(w, connect_kwargs=kw, use_queue=(role == "clientq"))
         try:
             if not s.ok:
                 return {"handshake_failed": True}
@@ -130,6 +130,13 @@ def run(ch, role, pings, gated, depth, preamble=()):
                     st["t_close"] = w.loop.vtime
                 if st.get("closed_at") is None and s.closed:
                     st["closed_at"] = w.loop.vtime
+            if role == "clientq":
+                s.drain_queue()         # the application starts consuming (unblocks frames held back by the full queue)
+                w.pump()
+                for f in s.take_frames():
+                    frames_log.append((98, f["opcode"], f["payload"]))
+                    if st.get("t_close") is None and f["opcode"] == 8:
+                        st["t_close"] = w.loop.vtime
             # final quiescence: release every gate (new ones may appear as queued frames get processed)
             for _ in range(10):
                 pend = [g for g in gates if not g.done()]
@@ -158,18 +165,24 @@ def run(ch, role, pings, gated, depth, preamble=()):
             w.pump()
             for f in s.take_frames():
                 frames_log.append((100, f["opcode"], f["payload"]))
+            queue_pending = None
+            if role == "clientq":
+                # the application now consumes everything with read_message(): messages, then None for the close
+                queue_pending = s.drain_queue()
+                w.pump()
             msgs = list(s.rec["messages"])
             if role == "server":
                 closes = list(s.rec["closes"])
             else:
                 closes = [(s.conn.close_code, s.conn.close_reason)] * msgs.count(None)
                 msgs = [m for m in msgs if m is not None]
-            return {"t_close": st.get("t_close"), "closed_at": st.get("closed_at"), "gated": gated, "trace": trace, "frames": frames_log, "closed": s.closed, "closed_before_timers": closed_before_timers,
+            return {"queue_pending": queue_pending, "t_close": st.get("t_close"), "closed_at": st.get("closed_at"),
+                    "gated": gated or role == "clientq", "trace": trace, "frames": frames_log, "closed": s.closed, "closed_before_timers": closed_before_timers,
                     "closes": closes, "messages": msgs, "late_write": late_write,
                     "errs": [str(c.get("message"))[:100] for c in w.loop_errors()],
                     "logs": [(r[1], r[2][:70], r[3]) for r in w.logs.records if r[1] in ("ERROR", "CRITICAL")]}
         finally:
-            if role == "client":
+            if role in ("client", "clientq"):
                 s.restore()
 
 
@@ -261,6 +274,9 @@ def judge(role, pings, o):
     if o.get("t_close") is not None and o.get("closed_at") is not None and o["closed_at"] > o["t_close"] + 5.0 + 1e-6:
         bad.append(("teardown-later-than-closing-timeout", "close frame sent at t=%.3f, socket closed at t=%.3f (> 5 s later)"
                     % (o["t_close"], o["closed_at"])))
+    if o.get("queue_pending") and o["closed"]:
+        bad.append(("read_message-never-told-about-the-close", "the connection is closed but read_message() stays pending "
+                    "after delivering %r" % (o["messages"],)))
     if o["errs"]:
         bad.append(("loop-exception", repr(o["errs"][:1])))
     for l in o["logs"]:
@@ -273,7 +289,7 @@ class C16(Check):
     id = "C16"
     level = "model_checking"
     rule = ("every event sequence up to depth D over {local close(), close(1001,'bye'), local write_message, peer close frame "
-            "(empty, code 1000, code+reason, invalid-UTF-8 reason, 1-byte payload), peer text message, peer pong, peer EOF at "
+            "(empty, code 1000, code + 123-byte reason = the largest legal control payload, invalid-UTF-8 reason, 1-byte payload), peer text message, peer pong, peer EOF at "
             "a frame boundary, peer EOF mid-frame, on_message gate release, earliest timer fires}, for the real server side "
             "and the real client side, with and without keep-alive pings (interval 10 s, timeout 4 s) and with synchronous or "
             "gated on_message; all remaining timers are fired at the end and a late write is attempted; "
@@ -288,8 +304,8 @@ class C16(Check):
 
     def partitions(self, tier):
         parts = []
-        for role in ("server", "client"):
-            for pings in (False, True):
+        for role in ("server", "client", "clientq"):
+            for pings in ((False, True) if role != "clientq" else (False,)):
                 for gated in ((False, True) if role == "server" else (False,)):
                     for first in range(len(EVENTS)):
                         parts.append((role, pings, gated, first, ()))
